@@ -53,6 +53,8 @@ func ruleA5(r *Run, p *Prog) {
 	// methods of Event / Context / Array
 	for _, tn := range []string{"Event", "Context", "Array"} {
 		for _, m := range p.Methods("", tn, true) {
+			// shared private appenders (`appendFloat64Field(dst, key, v)`) are part of the setter
+			m = p.View(m, "", nil)
 			var calls []*ssa.Call
 			eachInstr(m, func(b *ssa.BasicBlock, i int, in ssa.Instruction) {
 				if c, ok := in.(*ssa.Call); ok {
